@@ -1,5 +1,8 @@
 import FluteModel.Recv
 import FluteModel.Lemmas.RecvRun
+import FluteModel.Lemmas.RecvSkewState
+import FluteModel.Lemmas.RecvToy
+import FluteModel.RecvMini
 /-
   C19 - FDT expiry: delivery only through an FDT instance unexpired on the sender's clock.
 
@@ -139,5 +142,98 @@ theorem no_sct_uses_own_clock (I : ObjIface σ) (cfg : Config) (ops : List Op)
   intro e he
   refine ⟨fun f hf => ⟨(this e he).1 f hf, fun now => (no_sct_server_time f now ((this e he).1 f hf)).1⟩,
     (this e he).2⟩
+
+
+/-- **skew cancels** (instance level, both the "late" and the "early" branch of
+    `FdtReceiver::push`): after an EXT_TIME `sct` was observed at receiver time `now₀ + δ`, the
+    estimate of the sender clock at receiver time `now + δ` is `sct + (now − now₀)` - the skew δ of
+    the receiver clock has cancelled, whatever its sign and size (all clocks within
+    1970 … 1970 + 2^62 µs, `sct` a 32-bit NTP second count). -/
+theorem server_time_cancels_skew (f : FdtRecv σ) (sct now₀ now δ : Int)
+    (hs : 0 ≤ sct ∧ sct < 4294967296000000)
+    (h0 : TimeSane (now₀ + δ)) (h1 : TimeSane (now + δ)) :
+    (f.observeSct (some sct) (now₀ + δ)).serverTime (now + δ) = .ok (sct + (now - now₀)) := by
+  have hso := signedOffset_observe f sct (now₀ + δ)
+  unfold TimeSane at h0 h1
+  rw [serverTime_of_signed _ (now + δ) _ hso (by unfold offB; omega) (by unfold offB; omega) h1]
+  congr 1; omega
+
+/-- **skew_invariant.**  Take any history in which every packet of an FDT instance carries a
+    sender-current-time (a 32-bit NTP second count) and run it twice: with the receiver times as
+    given, and with every receiver time shifted by δ (any sign, any size; both clocks within
+    1970 … 1970 + 2^62 µs).  Then either both runs panic at the same call or both complete with
+    exactly the same per-call results and events - every `attach_fdt` decision (ghost `attach`
+    events) and every writer call, in the same order - and the final states are equal except that
+    every stored clock offset is shifted by δ (`shiftS`). -/
+theorem skew_invariant (I : ObjIface σ) (cfg : Config) (δ : Int) (ops : List Op)
+    (hops : ∀ op ∈ ops, SkewHyp δ op) :
+    run I (State.init cfg) (ops.map (shiftOp δ)) =
+      (match run I (State.init cfg) ops with
+       | some (s', out) => some (shiftS δ s', out)
+       | none => none) := by
+  have := run_shift δ I ops (State.init cfg) hops
+    (by constructor <;> (intro f hf; simp [State.init] at hf))
+  exact this
+
+/-- corollary: the observable outcome (results, attach decisions, writer calls) is the same -/
+theorem skew_invariant_outputs (I : ObjIface σ) (cfg : Config) (δ : Int) (ops : List Op)
+    (hops : ∀ op ∈ ops, SkewHyp δ op) :
+    (run I (State.init cfg) (ops.map (shiftOp δ))).map (·.2) = (run I (State.init cfg) ops).map (·.2) := by
+  rw [skew_invariant I cfg δ ops hops]
+  cases run I (State.init cfg) ops with
+  | none => rfl
+  | some x => obtain ⟨s', out⟩ := x; rfl
+
+/-! ### non-vacuity: concrete histories (the `Mini` object of the executable driver) -/
+
+namespace Ex
+def cfg : Config :=
+  { maxObjectsError := 0, sessionTimeout := false, objectTimeout := true, maxCache := 1000,
+    receiveOnce := true, expCheck := true }
+/-- Expires = NTP 3999999999 = 1791011199 s after 1970 -/
+def fdt : FdtAbs :=
+  { expires := "3999999999", files := some [{ toi := "5", cc := none, tlen := 4, oti := some ⟨0, 4, 8⟩ }] }
+/-- the FDT packet: instance 1, SCT = 1791011000 s -/
+def pF : Pkt :=
+  { toi := 0, closeObject := false, closeSession := false, fdtId := some 1, sct := some 1791011000000000,
+    fti := some ⟨⟨0, 16, 64⟩, 10⟩, pid := some (0, 0), plen := 10, dlen := 50 }
+def pO : Pkt :=
+  { toi := 5, closeObject := false, closeSession := false, fdtId := none, sct := none, fti := none,
+    pid := some (0, 0), plen := 4, dlen := 20 }
+/-- receiver clock one year ahead of the sender; the object arrives 100 s after the FDT
+    (99 s before expiry on the sender's clock) -/
+def skew : Int := 31536000000000
+def opsEarly : List Op :=
+  [.data (.pkt pF) (1791011000000000 + skew) (.ok fdt true), .data (.pkt pO) (1791011100000000 + skew) .err]
+/-- the object arrives 300 s after the FDT (101 s after expiry on the sender's clock) -/
+def opsLate : List Op :=
+  [.data (.pkt pF) (1791011000000000 + skew) (.ok fdt true), .data (.pkt pO) (1791011300000000 + skew) .err]
+def evs (ops : List Op) := (runT Mini.iface (State.init cfg) ops).map (fun tr => tr.map (·.2.2.2))
+end Ex
+
+/-- delivered through the unexpired instance although the receiver clock is a year ahead
+    (`delivery_only_if_unexpired` has an attach event to talk about) -/
+example : Ex.evs Ex.opsEarly =
+    some [[Ev.fdtReceived 1],
+          [Ev.w 5 (.new (.expiresAtHint 1791011199000000)), Ev.w 5 .opened, Ev.attach 5 1,
+           Ev.w 5 (.write 0 4), Ev.w 5 .complete]] := by decide
+
+/-- announced only by an instance expired on the sender's clock: silent -/
+example : Ex.evs Ex.opsLate = some [[Ev.fdtReceived 1], []] := by decide
+
+/-- the hypotheses of `skew_invariant` are met by that history (δ = minus one year) -/
+example : ∀ op ∈ [Op.data (.pkt Ex.pF) (1791011000000000 + Ex.skew) (.ok Ex.fdt true)], SkewHyp (-Ex.skew) op := by
+  intro op hop
+  simp only [List.mem_singleton] at hop
+  subst hop
+  refine ⟨by simp only [TimeSane, Op.now, Ex.skew]; omega, by simp only [TimeSane, Op.now, Ex.skew]; omega, ?_⟩
+  intro p now ans h htoi id hid
+  injection h with h1 h2 h3
+  injection h1 with h1
+  subst h1
+  exact ⟨1791011000000000, rfl, by omega, by omega⟩
+
+/-- the contract `ObjIface.Law` of `expired_only_is_silent` is satisfiable -/
+example : Toy.iface.Law := Toy.law
 
 end Flute.Props.C19
